@@ -1,5 +1,6 @@
 From GV Require Import Common.Outcome C06.Model C06.Spec C06.Proofs C06.RefProofs C06.Mirror C06.Refuted.
 
+From GV Require Import Common.Outcome C06.Model C06.Spec C06.Mirror C06.SearchSpec C06.SearchProofs C06.SearchExamples.
 Theorem C06_reference_complete : reference_complete_stmt.
 Proof. exact reference_complete. Qed.
 Print Assumptions C06_reference_complete.
@@ -55,3 +56,81 @@ Print Assumptions C06_reference_form.
 Theorem C06_search_complete_refuted : search_complete_refuted_stmt.
 Proof. exact search_complete_refuted. Qed.
 Print Assumptions C06_search_complete_refuted.
+
+(* soundness invariants of the executable mirror of the bucketed search (dijkstra + CPCTPlus) *)
+
+Theorem C06_exec_step : exec_step_stmt.
+Proof. exact exec_step. Qed.
+Print Assumptions C06_exec_step.
+
+Theorem C06_exec_progress : exec_progress_stmt.
+Proof. exact exec_progress. Qed.
+Print Assumptions C06_exec_progress.
+
+Theorem C06_exec_total : exec_total_stmt.
+Proof. exact exec_total. Qed.
+Print Assumptions C06_exec_total.
+
+Theorem C06_mirror_runs : mirror_runs_stmt.
+Proof. exact mirror_runs. Qed.
+Print Assumptions C06_mirror_runs.
+
+Theorem C06_node_invariant : node_invariant_stmt.
+Proof. exact node_invariant. Qed.
+Print Assumptions C06_node_invariant.
+
+Theorem C06_neighbours_invariant : neighbours_invariant_stmt.
+Proof. exact neighbours_invariant. Qed.
+Print Assumptions C06_neighbours_invariant.
+
+Theorem C06_merge_preserves_invariant : merge_preserves_invariant_stmt.
+Proof. exact merge_preserves_invariant. Qed.
+Print Assumptions C06_merge_preserves_invariant.
+
+Theorem C06_returned_nodes_invariant : returned_nodes_invariant_stmt.
+Proof. exact returned_nodes_invariant. Qed.
+Print Assumptions C06_returned_nodes_invariant.
+
+Theorem C06_nf_means : nf_means_stmt.
+Proof. exact nf_means. Qed.
+Print Assumptions C06_nf_means.
+
+Theorem C06_unfold_in_paths : unfold_in_paths_stmt.
+Proof. exact unfold_in_paths. Qed.
+Print Assumptions C06_unfold_in_paths.
+
+Theorem C06_buckets_in_cost_order : buckets_in_cost_order_stmt.
+Proof. exact buckets_in_cost_order. Qed.
+Print Assumptions C06_buckets_in_cost_order.
+
+Theorem C06_first_success_is_minimal_among_explored : first_success_is_minimal_among_explored_stmt.
+Proof. exact first_success_is_minimal_among_explored. Qed.
+Print Assumptions C06_first_success_is_minimal_among_explored.
+
+Theorem C06_returned_same_cost : returned_same_cost_stmt.
+Proof. exact returned_same_cost. Qed.
+Print Assumptions C06_returned_same_cost.
+
+Theorem C06_reported_are_successes : reported_are_successes_stmt.
+Proof. exact reported_are_successes. Qed.
+Print Assumptions C06_reported_are_successes.
+
+Theorem C06_reported_valid : reported_valid_stmt.
+Proof. exact reported_valid. Qed.
+Print Assumptions C06_reported_valid.
+
+Theorem C06_reported_are_reference_successes : reported_are_reference_successes_stmt.
+Proof. exact reported_are_reference_successes. Qed.
+Print Assumptions C06_reported_are_reference_successes.
+
+Theorem C06_reported_cost_ge_reference : reported_cost_ge_reference_stmt.
+Proof. exact reported_cost_ge_reference. Qed.
+Print Assumptions C06_reported_cost_ge_reference.
+
+Theorem C06_mirror_output_form : mirror_output_form_stmt.
+Proof. exact mirror_output_form. Qed.
+Print Assumptions C06_mirror_output_form.
+
+Theorem C06_merge_arm_unreachable : merge_arm_unreachable_stmt.
+Proof. exact merge_arm_unreachable. Qed.
+Print Assumptions C06_merge_arm_unreachable.
